@@ -71,10 +71,6 @@ def add (c : Cache) (r : Rec) : Cache × Bool :=
     | none => c.svc
   ({ cache := cache, svc := svc }, new)
 
-/-- `DNSCache.async_add_records` -/
-def addAll (c : Cache) (rs : List Rec) : Cache × Bool :=
-  rs.foldl (fun (acc : Cache × Bool) r => let (c', n) := add lower acc.1 r; (c', acc.2 || n)) (c, false)
-
 /-- `_remove_key(cache, key, record)` -/
 def removeKey (m : Index) (k : String) (r : Rec) : Except PyExc Index :=
   match m.find? k with
@@ -93,17 +89,8 @@ def remove (c : Cache) (r : Rec) : Except PyExc Cache := do
   let cache ← removeKey lower c.cache (lower r.name) r
   pure { cache := cache, svc := svc }
 
-/-- `DNSCache.async_remove_records` -/
-def removeAll (c : Cache) (rs : List Rec) : Except PyExc Cache := rs.foldlM (remove lower) c
-
 /-- `for records in self.cache.values() for record in records` -/
 def allRecs (c : Cache) : List Rec := c.cache.flatMap (fun kb => kb.2)
-
-/-- `DNSCache.async_expire`: the purged records, in iteration order -/
-def expire (c : Cache) (now : Ms) : Except PyExc (Cache × List Rec) := do
-  let expired := c.allRecs.filter (fun r => r.isExpired now)
-  let c' ← removeAll lower c expired
-  pure (c', expired)
 
 /-! readers -/
 
@@ -149,15 +136,36 @@ def markFlush (c : Cache) (uts : List (String × Nat × Nat)) (answers : List Re
 
 end Cache
 
-/-! ### `RecordManager.async_updates_from_response` -/
+/-! ### `RecordManager.async_updates_from_response`
+
+The record manager only uses the cache through six operations, so it is written once over an
+abstract cache (`CacheOps`) and instantiated with the indexed `Cache` above (the code) and with the
+flat reference store of `Zc.Flat` (the RFC 6762 §10 reference model of C05/C06). -/
+
+structure CacheOps (σ : Type) where
+  getUnique : σ → Rec → Option Rec
+  resetTtl : σ → Rec → σ
+  markFlush : σ → List (String × Nat × Nat) → List Rec → Ms → σ
+  add : σ → Rec → σ × Bool
+  remove : σ → Rec → Except PyExc σ
+  /-- iteration over all cached records (`async_expire`) -/
+  allRecs : σ → List Rec
+
+def Cache.ops : CacheOps Cache where
+  getUnique := Cache.getUnique lower
+  resetTtl := Cache.resetTtl lower
+  markFlush := Cache.markFlush lower
+  add := Cache.add lower
+  remove := Cache.remove lower
+  allRecs := Cache.allRecs
 
 /-- the PTR TTL floor (`record.set_created_ttl(record.created, _DNS_PTR_MIN_TTL)`) -/
 def floorPtr (r : Rec) : Rec :=
   if Gen.Cache.ptr_floor_test r.ttl r.type then r.setLife r.created Gen.dnsPtrMinTtl else r
 
 /-- the per-datagram work lists -/
-structure IngestAcc where
-  cache : Cache
+structure IngestAcc (σ : Type) where
+  cache : σ
   /-- `(record, maybe_entry is not None)`; the old object is live, so it is re-read at call time -/
   updates : List (Rec × Bool) := []
   addrAdds : List Rec := []
@@ -166,60 +174,74 @@ structure IngestAcc where
   removes : List Rec := []
   uniqueTypes : List (String × Nat × Nat) := []
 
+/-- `removes.add(record)` -/
+def setInsert (l : List Rec) (r : Rec) : List Rec := if l.any (fun x => x.beq lower r) then l else l ++ [r]
+
+section
+variable {σ : Type} (ops : CacheOps σ)
+
+/-- `DNSCache.async_add_records` -/
+def addAll (c : σ) (rs : List Rec) : σ × Bool :=
+  rs.foldl (fun (acc : σ × Bool) r => ((ops.add acc.1 r).1, acc.2 || (ops.add acc.1 r).2)) (c, false)
+
+/-- `DNSCache.async_remove_records` -/
+def removeAll (c : σ) (rs : List Rec) : Except PyExc σ := rs.foldlM ops.remove c
+
+/-- `DNSCache.async_expire`: the purged records, in iteration order -/
+def expire (c : σ) (now : Ms) : Except PyExc (σ × List Rec) := do
+  let expired := (ops.allRecs c).filter (fun r => r.isExpired now)
+  let c' ← removeAll ops c expired
+  pure (c', expired)
+
 /-- one iteration of `for record in answers` -/
-def ingestStep (now : Ms) (a : IngestAcc) (r0 : Rec) : IngestAcc :=
+def ingestStep (now : Ms) (a : IngestAcc σ) (r0 : Rec) : IngestAcc σ :=
   let r := floorPtr r0
-  let a := if r.unique then { a with uniqueTypes := a.uniqueTypes ++ [(r.name, r.type, r.class_)] } else a
-  let e := a.cache.getUnique lower r
-  if !(r.isExpired now) then
-    match e with
-    | some _ => { a with cache := a.cache.resetTtl lower r, updates := a.updates ++ [(r, true)] }
-    | none =>
-      if Gen.Cache.is_address_type r.type then
-        { a with addrAdds := a.addrAdds ++ [r], updates := a.updates ++ [(r, false)] }
-      else
-        { a with otherAdds := a.otherAdds ++ [r], updates := a.updates ++ [(r, false)] }
-  else
-    match e with
-    | some _ =>
-      { a with updates := a.updates ++ [(r, true)],
-               removes := if a.removes.any (fun x => x.beq lower r) then a.removes else a.removes ++ [r] }
-    | none => a
+  let uts := if r.unique then a.uniqueTypes ++ [(r.name, r.type, r.class_)] else a.uniqueTypes
+  match ops.getUnique a.cache r, r.isExpired now with
+  | some _, false => { a with uniqueTypes := uts, cache := ops.resetTtl a.cache r, updates := a.updates ++ [(r, true)] }
+  | none, false =>
+    if Gen.Cache.is_address_type r.type then
+      { a with uniqueTypes := uts, addrAdds := a.addrAdds ++ [r], updates := a.updates ++ [(r, false)] }
+    else
+      { a with uniqueTypes := uts, otherAdds := a.otherAdds ++ [r], updates := a.updates ++ [(r, false)] }
+  | some _, true => { a with uniqueTypes := uts, updates := a.updates ++ [(r, true)], removes := setInsert lower a.removes r }
+  | none, true => { a with uniqueTypes := uts }
 
 /-- what one datagram does, with the cache as the listeners see it in each of the two calls -/
-structure IngestOut where
-  cache : Cache
+structure IngestOut (σ : Type) where
+  cache : σ
   /-- arguments of `async_update_records` (pairs, `old` read live) and the cache at that moment; `none` = not called -/
-  call1 : Option (List (Rec × Option Rec) × Cache)
+  call1 : Option (List (Rec × Option Rec) × σ)
   /-- the cache at `async_update_records_complete`; `none` = not called -/
-  call2 : Option Cache
+  call2 : Option σ
   /-- argument of `async_updates_complete` (`new`) -/
   notify : Bool
 
 /-- records as `DNSIncoming` hands them over: `created = msg.now` -/
 def stamp (now : Ms) (recs : List Rec) : List Rec := recs.map (fun r => r.setLife now r.ttl)
 
-/-- the loop and the flush: the cache as it is when `async_update_records` is called -/
-def ingestPre (c : Cache) (now : Ms) (recs : List Rec) : IngestAcc :=
+/-- the loop and the flush: the state when `async_update_records` is called -/
+def ingestPre (c : σ) (now : Ms) (recs : List Rec) : IngestAcc σ :=
   let answers := stamp now recs
-  let a := answers.foldl (ingestStep lower now) { cache := c }
-  let c1 := if a.uniqueTypes.isEmpty then a.cache else a.cache.markFlush lower a.uniqueTypes (answers.map floorPtr) now
+  let a := answers.foldl (ingestStep lower ops now) { cache := c }
+  let c1 := if a.uniqueTypes.isEmpty then a.cache else ops.markFlush a.cache a.uniqueTypes (answers.map floorPtr) now
   { a with cache := c1 }
 
-/-- `RecordManager.async_updates_from_response` (listeners abstracted to the two observation points) -/
-def ingest (c : Cache) (now : Ms) (recs : List Rec) : Except PyExc IngestOut := do
-  let a := ingestPre lower c now recs
-  let c1 := a.cache
-  let call1 := if a.updates.isEmpty then none
-    else some (a.updates.map (fun u => (u.1, if u.2 then c1.getUnique lower u.1 else none)), c1)
-  let (c2, n1) := c1.addAll lower a.addrAdds
-  let (c3, n2) := c2.addAll lower a.otherAdds
-  let c4 ← c3.removeAll lower a.removes
-  pure { cache := c4, call1 := call1, call2 := if a.updates.isEmpty then none else some c4, notify := n1 || n2 }
+/-- the `(new, old)` pairs as a listener reads them during `async_update_records` -/
+def livePairs (c1 : σ) (updates : List (Rec × Bool)) : List (Rec × Option Rec) :=
+  updates.map (fun u => (u.1, if u.2 then ops.getUnique c1 u.1 else none))
 
-/-- `AsyncEngine._async_cache_cleanup`: purge, `async_updates(now, [(r, r) …])` (always called, also with an
-empty list), `async_updates_complete(False)` -/
-def purge (c : Cache) (now : Ms) : Except PyExc (Cache × List Rec) := Cache.expire lower c now
+/-- `RecordManager.async_updates_from_response` (listeners abstracted to the two observation points) -/
+def ingest (c : σ) (now : Ms) (recs : List Rec) : Except PyExc (IngestOut σ) := do
+  let a := ingestPre lower ops c now recs
+  let c1 := a.cache
+  let call1 := if a.updates.isEmpty then none else some (livePairs ops c1 a.updates, c1)
+  let c2 := addAll ops c1 a.addrAdds
+  let c3 := addAll ops c2.1 a.otherAdds
+  let c4 ← removeAll ops c3.1 a.removes
+  pure { cache := c4, call1 := call1, call2 := if a.updates.isEmpty then none else some c4, notify := c2.2 || c3.2 }
+
+end
 
 end
 
